@@ -106,19 +106,24 @@ Proof. exact point_data_complete. Qed.
    stored at k, whatever the variable's own id order.  `point_data_by_id` is
    translated from the tree under test (does FEMData.to_meshio hand the node ids
    to FEMAttributes.to_meshio or not):
-     - by id      : the full statement holds  (C06_point_data_by_node);
+     - by id      : the full statement holds  (C06_point_data_by_node), provided the rows are the
+                    variable's CURRENT values (`point_data_current_values`, also translated: an
+                    export through attribute.loc[...] reads the pandas frame, which in-place
+                    edits of attribute.data leave stale - then Model.to_vtk, a function of the
+                    current values, is not what the code computes after such an edit and the
+                    history stream of the correspondence reports it);
      - positional : it holds only for variables stored in the nodes' order
                     (C06_point_data_by_node_partial) and is refuted otherwise
                     (C06_point_data_by_node_refuted, replayed on femio). *)
 Theorem C06_point_data_by_node :
-  point_data_by_id = true ->
+  point_data_by_id = true -> point_data_current_values = true ->
   forall (P V : Type) (m : mesh P V) pts cells pd, to_vtk m = Some (pts, cells, pd) ->
   forall v, In v (nodal m) -> (v_rank v <= 2)%nat ->
     exists rows, In (v_name v, rows) pd /\
       forall k id p, nth_error (nodes m) k = Some (id, p) ->
         exists row, nth_error rows k = Some row /\ var_value v id = Some row.
 Proof.
-  intros Hb P V m pts cells pd H v Hv Hr.
+  intros Hb _ P V m pts cells pd H v Hv Hr.
   destruct (proj1 (point_data_complete P V m pts cells pd H) v Hv Hr) as (rows & Hin & _ & Hid).
   exists rows. split; [exact Hin|exact (Hid Hb)].
 Qed.
